@@ -71,6 +71,9 @@ type Call struct {
 	reply chan struct{}
 }
 
+func (c *Call) replyCh() chan struct{}   { return c.reply }
+func (c *Call) setReply(ch chan struct{}) { c.reply = ch }
+
 func (c *Call) IsWrite() bool {
 	switch c.Verb {
 	case "create", "update", "updatestatus", "patch", "delete":
@@ -226,6 +229,15 @@ type Sim struct {
 	lastRoundOps int
 	injSeq      int
 	chaosCount  int
+	// C11: single-fault injection by index of the controller tasks' API calls
+	countCalls       bool
+	ctrlCalls        int
+	ctrlCallsCounted int
+	callKinds        []bool
+	faultAt, faultAt2 int
+	faultKind, faultKind2 string
+	faultsFired      int
+	finalState       string
 	faultyDrain bool // Drain draws API faults too (state-injection bodies)
 	QuiesceHook func(round int)
 }
@@ -271,11 +283,12 @@ func (s *Sim) Violate(prop, monitor, sig, format string, a ...interface{}) {
 var errCrashed = apierrors.NewServiceUnavailable("simulated: controller process stopped")
 
 func (s *Sim) gate(c *Call) {
-	c.reply = make(chan struct{})
+	ch := make(chan struct{})
+	c.reply = ch
 	s.mu.Lock()
 	s.pending = append(s.pending, c)
 	s.mu.Unlock()
-	<-c.reply
+	<-ch
 }
 
 // ---------------------------------------------------------------------------------------
@@ -586,7 +599,37 @@ func (s *Sim) Drain() {
 		if s.faultyDrain {
 			f = s.drawFault(c.Task.Ctrl + " " + c.Desc())
 		}
-		s.grant(c, f)
+		if s.countCalls && c.Task.Ctrl != CtrlCLI && !c.Task.Crashed {
+			s.ctrlCalls++
+			s.ctrlCallsCounted++
+			s.callKinds = append(s.callKinds, c.IsWrite())
+			kind := ""
+			if s.ctrlCalls == s.faultAt {
+				kind = s.faultKind
+			} else if s.ctrlCalls == s.faultAt2 {
+				kind = s.faultKind2
+			}
+			if kind != "" {
+				s.faultsFired++
+				s.logf("c11 fault %s at call %d", kind, s.ctrlCalls)
+				switch kind {
+				case "crash-before":
+					s.Crash()
+					continue
+				case "crash-after":
+					s.grant(c, "")
+					s.Crash()
+					continue
+				default:
+					f = kind
+				}
+			}
+		}
+		if s.batchMode {
+			s.grantBatch(c, f)
+		} else {
+			s.grant(c, f)
+		}
 	}
 	panic("sim: drain did not terminate")
 }
